@@ -4,8 +4,8 @@
 set -e
 . $MC/par.sh
 H=$VERIF/harness/c09
-NP_OLD=9
-NP_NEW=6
+NP_OLD=10
+NP_NEW=7
 # -ftrivial-auto-var-init=zero: a truncated decode leaves the unread part of a scalar (e.g. a 16-bit count)
 # uninitialised; the statement does not constrain the decoded value, zero makes the exploration deterministic.
 CF="-std=c++20 -O1 -gline-tables-only -fsanitize=address -fno-omit-frame-pointer -I$REPO -I$MC -I$H"
